@@ -119,8 +119,16 @@ def main():
             m = dict(system=u['system'], kind=u['kind'], core=core)
             if core != '*':
                 m['history'] = u['text']
-            if not any(x['system'] == m['system'] and x['kind'] == m['kind'] and x['core'] == m['core'] for x in fd['matchers']):
+                m['sigs'] = {}
+            ex = [x for x in fd['matchers'] if x['system'] == m['system'] and x['kind'] == m['kind'] and x['core'] == m['core']]
+            if not ex:
                 fd['matchers'].append(m)
+                ex = [m]
+            if core != '*' and u.get('sig_key'):
+                prev = ex[0].setdefault('sigs', {}).get(u['sig_key'])
+                if prev is not None and prev != u['sig']:
+                    print('WARNING: two signatures for', fid, core, u['sig_key'], prev, u['sig'])
+                ex[0]['sigs'][u['sig_key']] = u['sig']
     old = {}
     p = f'{V}/known_findings.json'
     if os.path.exists(p):
